@@ -177,6 +177,8 @@ def correspondence(ctx):
         for cls in ("interior", "boundary"):
             t, v = S.true_var(cls)
             cands.append((cls, v, t.obj))
+        tl = ts.layout_variant(S.true_var("interior")[0], S.c_sys, flag)
+        cands.append(("interior/layout", tl.var(flag), tl.obj))
         if kind == "qmpt":
             for t in ts.edge_objects(S.c_sys, kind, m, flag)[:(3 if ctx.quick else 99)]:
                 cands.append((t.label, t.var(flag), t.obj))
@@ -349,6 +351,8 @@ def _check_setup(ctx, spec, full_basis=True):
     if kind != "qpt":
         # boundary candidates with exact zero-probability outcomes that are not the last outcome
         cand += ts.edge_objects(S.c_sys, kind, S.m, flag)
+    # the same candidates handed over in another memory layout (Fortran-ordered / transposed-view / strided arrays)
+    cand += [ts.layout_variant(t, S.c_sys, flag) for t in cand[:3]]
     for t in cand:
         cls, v = t.label, t.var(flag)
         ctx.case(("oracle-paths", spec, cls), sample={"check": "calc_prob_dists / generate_prob_dists_sequence", "true": cls})
